@@ -557,6 +557,23 @@ def step (line : String) : String :=
   | "updatemeta" :: toks =>
       let (a, b) := splitAt "|" toks
       showAttrs (updatedAttrs (parseAttrs a) (parseAttrs b))
+  | "dicttoarray" :: toks =>
+      -- dicttoarray <ncoords> (<dim> <n> <labels…>)* | (<key> <value>)*
+      let (a, b) := splitAt "|" toks
+      let rec coords : Nat → List String → List (String × List String)
+        | 0, _ => []
+        | k + 1, dim :: n :: rest => (dim, rest.take (pN n)) :: coords k (rest.drop (pN n))
+        | _, _ => []
+      let rec pairs : List String → List (String × String)
+        | k :: v :: rest => (k, v) :: pairs rest
+        | _ => []
+      match a with
+      | nc :: rest =>
+        match dictToArray (coords (pN nc) rest) (pairs b) with
+        | some (.labelled [(dim, labels)] vals) => dim ++ ":" ++ ",".intercalate labels ++ "|" ++ ",".intercalate vals ++
+            " ; by-label: " ++ " ".intercalate ((sortLabels labels).map fun l => l ++ "=" ++ ((AttrVal.labelled [(dim, labels)] vals).sel l).getD "?")
+        | _ => "err:ValueError"
+      | _ => "bad-op"
   -- C13 ---------------------------------------------------------------
   | "parinfo" :: rest =>
       let ps := (parseFitPars rest).map (·.1)
